@@ -1,7 +1,13 @@
 from .harness import Mutant, edit_node, stmt_containing, compound_containing, to_pass, sub, is_call
 import ast
 F = 'src/pharmpy/internals/fs/lock.py'
+def text_edit(old, new):
+    def edit(src):
+        return src.replace(old, new, 1) if old in src else None
+    return edit
 MUTANTS = [
+    Mutant('downgrade_with_acquire_args', 'src/pharmpy/internals/fs/lock.py', text_edit("_process_level_lock(self._fd, shared=True, blocking=True)", "_process_level_lock(self._fd, shared, blocking)"), 'L10', 'downgrade re-locks exclusively'),
+    Mutant('caller_opens_lock_file', 'src/pharmpy/workflows/model_database/local_directory.py', text_edit("        path = self.path / FILE_LOCK\n        path.touch(exist_ok=True)\n        return path_lock(str(path), shared=True)", "        path = self.path / FILE_LOCK\n        with open(path, 'a'):\n            pass\n        return path_lock(str(path), shared=True)"), 'L11', 'second descriptor on the lock file'),
     Mutant('drop_release_sh_entry', F, edit_node('ShareableThreadLock._lock_sh', stmt_containing('self._condition.release()'), to_pass, 0),
            'L1', 'release of the condition after the entry bookkeeping deleted'),
     Mutant('drop_notify', F, edit_node('ShareableThreadLock._lock_sh', stmt_containing('notify_all'), to_pass), 'L5b',
